@@ -208,7 +208,7 @@ def run(ctx):
         # every attribute goes through exactly one of the two checks, failure returns false
         for i in vp:
             g = q.call_gate(ve, lambda j, i=i: j == i, False)
-            ok = ok and all(any('n' in e and ve.N(e['n'])['k'] == 'ReturnStmt' and ve.const_value(ve.ret_value(e['n'])) == 0 for e in ve.blocks[s].elems) for (_, s, _, _) in g)
+            ok = ok and all(any('n' in e and ve.N(e['n'])['k'] == 'ReturnStmt' and ve.const_value(ve.ret_value(e['n'])) == 0 for e in ve.blocks[s].elems) for (_, s, _, _) in [e for e in g if len(e) == 4])
         body = ve.N(lp[0])['body']
         pb = ve.point_of(body) if ve.point_of(body) else None
         esc = [j for j in ve.walk(body) if ve.N(j)['k'] in ('ContinueStmt', 'BreakStmt')]
